@@ -31,7 +31,7 @@ BUDGET_S = {'quick': 240, 'thorough': 900}
 
 
 def bounds(tier):
-    return {'terms': len(terms()), 'max_sites_exhaustive': 9, 'seeded_masks_for_larger_terms': 256 if tier == 'quick' else 2048, 'illtyped_skeletons': len(ill_skeletons())}
+    return {'terms': len(terms()), 'generated_terms': '%d seeded well-typed terms of depth <= 3 (type-directed grammar)' % (24 if tier == 'quick' else 400), 'max_sites_exhaustive': 9, 'seeded_masks_for_larger_terms': 256 if tier == 'quick' else 2048, 'illtyped_skeletons': len(ill_skeletons())}
 
 
 def setup(tier, seed):
@@ -279,9 +279,65 @@ def ill_skeletons():
             Comb(Comb(Const('equals', None), f), p), Comb(Abs('z', NatType, Bound(0)), p)]
 
 
+def gen_term(rnd, depth=3):
+    """A random well-typed closed-under-DECL term (type-directed) over x y :: nat, p :: bool, a :: 'a, f g h q and the nat signature."""
+    from kernel.type import NatType, BoolType, TVar, TFun
+    from kernel.term import Var, Const, Eq, Forall, Exists, Lambda, And, Or, Implies, Not, Nat, Comb
+    A = TVar('a')
+    x, y, p, a = Var('x', NatType), Var('y', NatType), Var('p', BoolType), Var('a', A)
+    f, g, q = Var('f', TFun(NatType, NatType)), Var('g', TFun(A, NatType)), Var('q', TFun(NatType, BoolType))
+    IF = lambda c, s_, t_: Const('IF', TFun(BoolType, s_.get_type(), s_.get_type(), s_.get_type()))(c, s_, t_)
+    cnt = [0]
+
+    def fresh(T):
+        cnt[0] += 1
+        return Var('v%d' % cnt[0], T)
+
+    def gen(T, d, env):
+        leaves = {NatType: [x, y, Nat(0), Nat(2)], BoolType: [p], A: [a]}[T] + [v for v in env if v.T == T]
+        if d == 0 or rnd.random() < 0.2:
+            return rnd.choice(leaves)
+        if T == BoolType:
+            k = rnd.choice(['eqn', 'eqa', 'less', 'and', 'or', 'imp', 'not', 'q', 'all', 'ex', 'exa'])
+            if k == 'eqn':
+                return Eq(gen(NatType, d - 1, env), gen(NatType, d - 1, env))
+            if k == 'eqa':
+                return Eq(gen(A, d - 1, env), gen(A, d - 1, env))
+            if k == 'less':
+                return gen(NatType, d - 1, env) < gen(NatType, d - 1, env)
+            if k in ('and', 'or', 'imp'):
+                return {'and': And, 'or': Or, 'imp': Implies}[k](gen(BoolType, d - 1, env), gen(BoolType, d - 1, env))
+            if k == 'not':
+                return Not(gen(BoolType, d - 1, env))
+            if k == 'q':
+                return q(gen(NatType, d - 1, env))
+            v = fresh(A if k == 'exa' else NatType)
+            return (Forall if k == 'all' else Exists)(v, gen(BoolType, d - 1, env + [v]))
+        if T == NatType:
+            k = rnd.choice(['plus', 'times', 'minus', 'f', 'g', 'if', 'beta'])
+            if k in ('plus', 'times', 'minus'):
+                l, r = gen(NatType, d - 1, env), gen(NatType, d - 1, env)
+                return l + r if k == 'plus' else l * r if k == 'times' else l - r
+            if k == 'f':
+                return f(gen(NatType, d - 1, env))
+            if k == 'g':
+                return g(gen(A, d - 1, env))
+            if k == 'if':
+                return IF(gen(BoolType, d - 1, env), gen(NatType, d - 1, env), gen(NatType, d - 1, env))
+            v = fresh(NatType)
+            return Comb(Lambda(v, gen(NatType, d - 1, env + [v])), gen(NatType, d - 1, env))
+        return IF(gen(BoolType, d - 1, env), gen(A, d - 1, env), gen(A, d - 1, env)) if rnd.random() < 0.5 else rnd.choice(leaves)
+    return gen(BoolType, depth, [])
+
+
 def run_terms(u, out):
     _, tier, seed, ti = u
-    orig = terms()[ti]
+    if isinstance(ti, tuple):
+        terms()                      # fills DECL
+        orig = gen_term(random.Random('c08g-%s-%s' % (seed, ti[1])))
+        ti = 1000 + ti[1]
+    else:
+        orig = terms()[ti]
     ss = sites(orig)
     k = len(ss)
     if k <= 9:
@@ -302,7 +358,7 @@ def run_terms(u, out):
             if judged:
                 out['keys'].add('%d|%s|%s' % (ti, m, declared))
             if kind:
-                out['cex'].append({'kind': kind, 'part': 'term', 'term': ti, 'mask': list(m), 'declared': declared, 'detail': detail, 'sig': '%s|%d|%s|%s' % (kind, ti, m, declared)})
+                out['cex'].append({'kind': kind, 'part': 'term', 'term': ti, 'seed': seed, 'mask': list(m), 'declared': declared, 'detail': detail, 'sig': '%s|%d|%s|%s' % (kind, ti, m, declared)})
                 if len(out['cex']) > 30:
                     return
     out['samples'].append({'term': str(orig), 'annotation_sites': k, 'masks': len(masks)})
@@ -349,6 +405,7 @@ def run_ill(u, out):
 
 def units(tier, seed):
     us = [('terms', tier, seed, i) for i in range(len(terms()))] + [('ill', tier, seed)]
+    us += [('terms', tier, seed, ('gen', j)) for j in range(24 if tier == 'quick' else 400)]
     random.Random(seed).shuffle(us)
     return us
 
@@ -371,7 +428,11 @@ def replay(c):
         run_ill(None, out)
         m = [x for x in out['cex'] if x['i'] == c['i'] and x['kind'] == c['kind']]
         return bool(m), m[0]['detail'] if m else 'not reproduced'
-    orig = terms()[c['term']]
+    if c['term'] >= 1000:
+        terms()
+        orig = gen_term(random.Random('c08g-%s-%s' % (c.get('seed', 0), c['term'] - 1000)))
+    else:
+        orig = terms()[c['term']]
     ss = sites(orig)
     masked = frozenset(p for p, b in zip(ss, c['mask']) if b)
     kind, detail, _ = judge(orig, masked, c['declared'])
